@@ -62,6 +62,56 @@ Example C07_example :
 Proof. vm_compute. eexists. repeat split; reflexivity. Qed.
 
 (* ------------------------------------------------------------------ *)
+(* Back-pressure from downstream. gate.update_data(u).await hands u to the receiving
+   unit and suspends the connection's task until that unit has taken it; the code
+   puts no limit on that. [waits] = for each update the session hands over, how long
+   the receiving end sits on it; [received waits out] = what it has got in the end;
+   [finished_at] = the sender's clock when the last one was taken.
+   Delivery under back-pressure is delayed, never dropped, never repeated: *)
+Theorem C07_backpressure_delays_never_drops : forall waits out, received waits out = out.
+Proof. exact received_same. Qed.
+Print Assumptions C07_backpressure_delays_never_drops.
+
+(* ... each update in its place, and none before the receiving end was ready for it *)
+Theorem C07_held_update_taken_late : forall out waits t i tg g,
+  deliver waits t out !! i = Some (tg, g) -> out !! i = Some g /\ t + default 0 (waits !! i) <= tg.
+Proof. exact deliver_lookup. Qed.
+Print Assumptions C07_held_update_taken_late.
+
+(* For every script, every end, every starting session AND every schedule of waits
+   (any update, any length of time - in particular the updates of the cleanup, for
+   longer than any time limit one might think of): the receiving end ends up with the
+   trace of the run without any wait, that trace is one complete cleanup, and the task
+   has not returned before the longest wait was over. *)
+Theorem C07_cleanup_under_backpressure : forall parse tl rid evs s0, SInv rid s0 ->
+  exists e rest s out, run_from parse true tl rid evs s0 = Done e rest s out /\
+    forall waits,
+      received waits out = received [] out /\ received [] out = out /\
+      cleanup_ok rid (received waits out) = true /\
+      (forall i, (i < length out)%nat -> default 0 (waits !! i) <= finished_at waits out).
+Proof. exact cleanup_under_backpressure. Qed.
+Print Assumptions C07_cleanup_under_backpressure.
+
+(* The statements are not blind to a time limit. Initiation, Peer Up, the stream cut
+   inside the next header; the receiving end holds, from the end of the reads on, the
+   first update it is handed - the WithdrawBulk of the cleanup - for an hour
+   ([hold_index]: which update that is, as the oracle computes it for an `H` op).
+   The code: both updates arrive, after the hour. A sender that gives up on an update
+   after 5 s ([received_limited], not the code) would leave the peer's routes in place. *)
+Theorem C07_time_limit_would_lose_cleanup :
+  let evs := map EByte [3; 0; 0; 0; 6; 4; 3; 0; 0; 0; 6; 3; 3; 0; 0] in
+  let h := MkHold 15 0 3600000 in
+  let idx := hold_index parse_w 2 evs h (conn_init 1).2 in
+  exists s out, run_stream parse_w true TEof 1 evs = Done EndEof [] s out /\
+    idx = Some 0%nat /\
+    received (waits_of idx (h_for h)) out = [GUpd (UWithdrawBulk [3]); GEos 2] /\
+    finished_at (waits_of idx (h_for h)) out = 3600000 /\
+    received_limited 5000 (waits_of idx (h_for h)) out = [GEos 2] /\
+    cleanup_ok 2 (received_limited 5000 (waits_of idx (h_for h)) out) = false.
+Proof. exact time_limit_would_lose_cleanup. Qed.
+Print Assumptions C07_time_limit_would_lose_cleanup.
+
+(* ------------------------------------------------------------------ *)
 (* The BGP session (bgp_tcp_in/router_handler.rs Processor::process). Model:
    Bgp/BgpSessionModel.v - a script is the sequence of events the select! loop sees
    (tick Ok / negotiated / Err of any kind; SessionNegotiated, UPDATE, NOTIFICATION,
